@@ -271,6 +271,11 @@ def run(ctx):
             e["nonblock"] |= se["nonblock"]
         ctx.check(not e["block"], "R15.4", "%s|handover-nonblocking" % f.name, "the hand-over never blocks (try_select / try_send only)", f.where(), str(sorted(e["block"])))
 
+    # R15.8 (= R16.8): the access counters are bumped from many reader threads at once
+    for o in ctx.own_of("c16"):
+        if o["rule"] == "R16.8":
+            ctx._add(o["status"], "R15.8", o["key"].split("|", 1)[1], o["desc"], o["where"], o["detail"])
+
     # ---- R15.5 consumer applies each buffer once -----------------------------------------------------
     spawn = F.spawn_closures()
     cons = []
